@@ -199,6 +199,32 @@ pub fn check_with(case: &Case, all_cuts_up_to: usize) -> CaseResult {
             }
         }
     }
+    // structure-aware cuts: a read that ends d bytes past a response boundary leaves exactly d
+    // bytes of the next response buffered when the previous one completes
+    if case.corr.is_none() {
+        let enc = wire::encode(&case.resps);
+        let mut done = 0;
+        for b in enc.boundaries.iter().take(4) {
+            for d in [1usize, 4095, 4096, 4097, 8192] {
+                let cut = b + d;
+                if cut >= stream.len() {
+                    continue;
+                }
+                done += 1;
+                let seg = Seg::Cuts(vec![cut]);
+                for fl in [Flavour::Blocking, Flavour::Async] {
+                    let obs = run(fl, GREETING, &stream, &seg, 0);
+                    execs += 1;
+                    if let Some(d2) = diff(&reference, &obs) {
+                        r.fail(format!("{fl:?} with one cut {d} bytes past the response boundary at {b} differs from blocking/whole: {d2}"));
+                        r.execs = execs;
+                        return r;
+                    }
+                }
+            }
+        }
+        r.class_if(done > 0, "cuts_relative_to_response_boundaries");
+    }
     if stream.len() <= all_cuts_up_to && stream.len() > 1 {
         r.class("every_cut_point");
         for cut in 1..stream.len() {
@@ -239,7 +265,7 @@ pub fn property(tier: Tier) -> Property {
         level: "exploration",
         parts: vec![Box::new(RandomPart {
             name: "segmentation",
-            rule: "proptest: stream = 1-6 encoded responses (small, or with payloads/values beyond 4 KiB and its doublings), with probability 1/2 one corruption (truncate / flip / insert / delete / splice an edge line); run under whole, one-byte and 4 generated segmentations (random cuts, fixed chunks, cuts at 4096/8192/16384 +-2) x {blocking, async, async+spurious pending}; streams <= 512 B (thorough 2048) additionally under every single cut point x {blocking, async}; all outcome sequences must equal blocking/whole. non-trivial = stream with >=2 responses, a payload or > 4096 B, under a segmentation cutting inside it; distinct by serialised case; 'executions' counts connection runs",
+            rule: "proptest: stream = 1-6 encoded responses (small, or with payloads/values beyond 4 KiB and its doublings), with probability 1/2 one corruption (truncate / flip / insert / delete / splice an edge line); run under whole, one-byte, single cuts {1,4095,4096,4097,8192} bytes past each of the first 4 response boundaries, and 4 generated segmentations (random cuts, fixed chunks, cuts at 4096/8192/16384 +-2) x {blocking, async, async+spurious pending}; streams <= 512 B (thorough 2048) additionally under every single cut point x {blocking, async}; all outcome sequences must equal blocking/whole. non-trivial = stream with >=2 responses, a payload or > 4096 B, under a segmentation cutting inside it; distinct by serialised case; 'executions' counts connection runs",
             cases: (2_000, 100_000),
             strategy: Box::new(strategy),
             check: Box::new(move |c| check_with(c, limit)),
